@@ -29,9 +29,13 @@ const (
 	pAns  // Credit-Control answer: only the catch-all applies
 	pUnreg // Session-Termination request: only the catch-all applies
 	nPeerMsgs
+	// only in random sequences: base commands under a non-zero application id
+	// (dispatched by short name because no index is registered for them)
+	pCERokApp = nPeerMsgs
+	pDWRApp   = nPeerMsgs + 1
 )
 
-var pNames = []string{"CER-ok", "CER-bad", "CER-retx", "DWR", "ReqA(name)", "ReqB(index)", "Answer", "Unregistered"}
+var pNames = []string{"CER-ok", "CER-bad", "CER-retx", "DWR", "ReqA(name)", "ReqB(index)", "Answer", "Unregistered", "CER-ok(app 4)", "DWR(app 4)"}
 
 func c10Wire(kind int, hbh uint32) []byte {
 	sess := peer.Str(peer.SessionID, refcodec.UTF8String, "s;1")
@@ -42,6 +46,14 @@ func c10Wire(kind int, hbh uint32) []byte {
 		return peer.StdCER(hbh, hbh, 999)
 	case pDWR:
 		return peer.DWR(hbh, hbh)
+	case pCERokApp:
+		b := peer.StdCER(hbh, hbh, 4)
+		b[11] = 4 // application id 4
+		return b
+	case pDWRApp:
+		b := peer.DWR(hbh, hbh)
+		b[11] = 4
+		return b
 	case pReqA:
 		return peer.Msg(0xC0, 271, 3, hbh, hbh, sess)
 	case pReqB:
@@ -143,7 +155,7 @@ func runC10Server(c *ev.Case, ctx *lib.Ctx, seq []int, oneSegment bool, allByIdx
 		switch state {
 		case "pre":
 			switch k {
-			case pCERok, pCERretx:
+			case pCERok, pCERretx, pCERokApp:
 				state = "ok"
 				wantCEAok++
 			case pCERbad:
@@ -154,7 +166,7 @@ func runC10Server(c *ev.Case, ctx *lib.Ctx, seq []int, oneSegment bool, allByIdx
 			switch k {
 			case pReqA, pReqB, pAns, pUnreg:
 				want = append(want, fmt.Sprintf("%s:%d", appKey(k), hbh))
-			case pDWR:
+			case pDWR, pDWRApp:
 				wantDWAmin++
 			}
 		}
@@ -230,7 +242,7 @@ func gatedCount(seq []int) int {
 			n++
 		}
 		if state == "pre" {
-			if k == pCERok || k == pCERretx {
+			if k == pCERok || k == pCERretx || k == pCERokApp {
 				state = "ok"
 			} else if k == pCERbad {
 				state = "closed"
@@ -429,7 +441,7 @@ func TestC10(t *testing.T) {
 		n := 5 + c.R.IntN(26)
 		seq := make([]int, n)
 		for i := range seq {
-			seq[i] = c.R.IntN(nPeerMsgs)
+			seq[i] = c.R.IntN(nPeerMsgs + 2)
 			if seq[i] == pCERbad && c.R.IntN(3) != 0 {
 				seq[i] = pReqA
 			}
